@@ -7,7 +7,7 @@ use crate::engine::core::ColumnReader;
 use crate::engine::core::column::compression::CompressedColumnIndex;
 use crate::engine::core::event::event::Event;
 use crate::engine::core::event::event_id::EventId;
-use crate::engine::core::segment::segment_id::{LEVEL_SPAN, SegmentId};
+use crate::engine::core::segment::segment_id::SegmentId;
 use crate::engine::core::wal::wal_entry::WalEntry;
 use crate::engine::shard::context::ShardContext;
 use tracing::{info, warn};
@@ -97,14 +97,15 @@ impl WalRecovery {
         range
     }
 
-    /// Event ids within `range` that are stored in the published L0 (flushed, not yet
-    /// compacted) segments. Unreadable columns are skipped: the worst case is the old
-    /// behaviour (a duplicate).
+    /// Event ids within `range` that are stored in the published segments. All levels are
+    /// searched: a log that outlived its flush (crash before pruning) may only be replayed
+    /// after compaction has moved those events out of level 0. Unreadable columns are
+    /// skipped: the worst case is the old behaviour (a duplicate).
     fn flushed_event_ids(ctx: &ShardContext, (lo, hi): (u64, u64)) -> HashSet<u64> {
         let mut ids = HashSet::new();
         Self::for_each_published_event_id(
             ctx,
-            |segment| segment.id < LEVEL_SPAN,
+            |_| true,
             |id| {
                 if (lo..=hi).contains(&id) {
                     ids.insert(id);
